@@ -70,12 +70,23 @@ INDEX = [
 ]
 KS = [1, 2, 3, 5]
 RS = [0, 1, 2, 4, 5, 8, 9, 13, 16, 25, 36]
-ALLINV = "SortOK NearestOK KNearestOK KMonotone WithinOK Unique BoxOK"
+ALLINV = "SortOK NearestOK KNearestOK KMonotone WithinOK Unique BoxOK BoxScanOK"
+
+
+def box_corners(dim, coords):
+    """Corner points of the DoBounded query boxes (every pair lo <= hi of them is a box): lattice corners (faces of
+    the box pass through stored points: ties on the splitting planes), a point between lattice points, one outside."""
+    lo, hi = coords[0], coords[-1]
+    mid = coords[len(coords) // 2]
+    cs = [[lo] * dim, [hi] * dim, [mid] * dim, [lo + 1] * dim, [lo - 1] * dim, [hi + 1] * dim]
+    if dim > 1:
+        cs += [[lo] + [hi] * (dim - 1), [mid] + [lo] * (dim - 1)]
+    return cs
 
 
 def index_subst(rng, dim, coords, mb, mt, nq, emit, invs):
     qs = queries(rng, dim, coords, nq)
-    return dict(DIM=dim, COORDS=enc_set([c + OFF for c in coords]), OFF=OFF, MAXBUILT=mb, MAXTOTAL=mt,
+    return dict(BOXES=enc_set({qcode(c) for c in box_corners(dim, coords)}),DIM=dim, COORDS=enc_set([c + OFF for c in coords]), OFF=OFF, MAXBUILT=mb, MAXTOTAL=mt,
                 QCODES=enc_set({qcode(q) for q in qs}), KS=enc_set(KS), RS=enc_set(RS),
                 EMIT="TRUE" if emit else "FALSE", INVS=invs)
 
@@ -158,11 +169,15 @@ def hilbert(ctx, bins, thorough):
 def index_trace(ctx, bins, thorough):
     """code->spec: large lattice point sets (dims 1..6, up to 2000 points, duplicates), bulk build +
     inserts + queries on the live kdtree and a vptree of the same bag, judged by TLC."""
-    runs = [("a", ["runs=6", "maxn=700", "queries=5"])]
+    runs = [("a", ["runs=6", "maxn=700", "queries=5"], "index")]
     if thorough:
-        runs = [("a", ["runs=12", "maxn=2000", "queries=8"]), ("b", ["runs=12", "maxn=1200", "queries=10"])]
+        runs = [("a", ["runs=12", "maxn=2000", "queries=8"], "index"), ("b", ["runs=12", "maxn=1200", "queries=10"], "index")]
+    # box queries (kdtree.DoBounded) are recorded in files of their own: a rejection there has its own signature
+    runs += [("box", ["runs=12", "maxn=400", "queries=6", "boxes=only"], "kdtree.DoBounded")]
+    if thorough:
+        runs += [("box-b", ["runs=24", "maxn=2000", "queries=10", "boxes=only"], "kdtree.DoBounded")]
     for bn, b in bins.items():
-        for name, args in runs:
+        for name, args, what in runs:
             tr = os.path.join(ctx.work, "index-trace-%s-%s.ndjson" % (name, bn))
             summ = ctx.record(b, "spatial-trace", tr, args + ["salt=" + name], name="R3 record index trace %s [%s]" % (name, bn))
             ok, st = ctx.validate("spatial/SpatialIndexTrace.tla", "spatial/SpatialIndexTrace.cfg", tr,
@@ -173,10 +188,9 @@ def index_trace(ctx, bins, thorough):
                 ctx.nontrivial += summ.get("traces", 0)
             else:
                 dst = keep_trace(ctx, tr, "index-trace-%s-%s" % (name, bn))
-                ctx.violation("spatial:index:trace-rejected", st.get("detail", "")[:700],
+                ctx.violation("spatial:%s:trace-rejected" % what, st.get("detail", "")[:700],
                               {"trace": dst, "spec": "spatial/SpatialIndexTrace.tla",
                                "cfg_file": "spatial/SpatialIndexTrace.cfg", "cfg": {}})
-
 
 def barneshut(ctx, bins, thorough):
     """theta = 0: ForceOn equals the spec's direct pairwise sum (exact integer cubic force law)."""
